@@ -13,6 +13,8 @@ composed from the existing function-level models: `Http1.parse` (C21/C22: reques
 cleanMimePrefix, unfoldMime), `Header.parseHeader` (C25/C26: HttpHeader::parse + ContentLengthInterpreter),
 `Chunked.parse` (C24: TeChunkedParser) and the decision level of `Smuggle/Framing.lean`.
 
+`pipeline_prefetch` is 0 (the default): a request is parsed only when the previous one has been answered, so a request
+that is not persistent (`clientSetKeepaliveFlag`) is the last one of its connection.
 All bytes of the connection are in `inBuf` (what a client that pipelines everything in one write produces); the body pipe
 is never full (the consumer keeps up). What the real loop additionally does when the bytes arrive in pieces is
 covered by the segmentation theorems of C21 and C24 and by the end-to-end scenarios.
@@ -68,6 +70,8 @@ structure Desc where
   method : Bytes
   /-- the request target as the request parser extracted it -/
   uri : Bytes
+  /-- `request->flags.proxyKeepalive` after `clientSetKeepaliveFlag` -/
+  persistent : Bool
   /-- the body octets put into the body pipe (all of them for a complete message) -/
   body : Bytes
   deriving DecidableEq, Repr
@@ -130,7 +134,7 @@ inductive Step where
 def descOf (k : Kind) (es : List Entry) (contentLength : Int) (vmaj vmin : Nat) (m u body : Bytes) : Desc :=
   { kind := k, cl := if hasId es idContentLength then some contentLength else none,
     ncl := (es.filter (·.id == idContentLength)).length, te := chunked es, vmaj := vmaj, vmin := vmin, method := m,
-    uri := u, body := body }
+    uri := u, persistent := persistent es vmaj vmin, body := body }
 
 def step (cfg : Cfg) (url : Bytes → Bytes → Option UrlView) (buf : Bytes) : Step :=
   match head cfg url buf with
@@ -172,6 +176,7 @@ inductive Fin where
   | rej (start status : Nat) (site : Site)
   | connect (start headEnd : Nat)
   | throws (start : Nat)
+  | closing (stop : Nat)                               -- the last message was not persistent: the connection closes after its response
   | fuel                                               -- model artefact (proved unreachable in `DelimitLemmas`)
   deriving DecidableEq, Repr
 
@@ -190,8 +195,12 @@ def loop (cfg : Cfg) (url : Bytes → Bytes → Option UrlView) (total : Nat) : 
       | .connect r => ([], .connect start (total - r.length))
       | .body r d => ([], .body start (total - r.length) d)
       | .msg r rest d =>
-        let p := loop cfg url total f rest
-        (⟨start, total - r.length, total - rest.length, d⟩ :: p.1, p.2)
+        -- pipeline_prefetch 0: the next request is parsed only after this one's response was written, and
+        -- a request that is not persistent has the connection closed at that point
+        if d.persistent then
+          let p := loop cfg url total f rest
+          (⟨start, total - r.length, total - rest.length, d⟩ :: p.1, p.2)
+        else ([⟨start, total - r.length, total - rest.length, d⟩], .closing (total - rest.length))
 
 def delimit (cfg : Cfg) (url : Bytes → Bytes → Option UrlView) (stream : Bytes) : List Msg × Fin :=
   loop cfg url stream.length (stream.length + 1) stream
